@@ -87,6 +87,7 @@ func Minimise(e Engine, plan json.RawMessage, first RunResult, scratch string, b
 			execs++
 			dir := filepath.Join(scratch, fmt.Sprintf("min%d", execs))
 			res := e.Execute(cand, dir)
+			ReapChildren()
 			os.RemoveAll(dir)
 			if res.Viol != nil && res.Viol.Key() == want {
 				cur, curRes = cand, res
